@@ -90,6 +90,11 @@ def main():
     vobs = output.createVariable("obs", "f4", ("time", "leadtime", "location"))
     output.standard_name = variable.name
     output.units = unit = variable.units.replace("$", "")
+    # Keep the discrete masses of the variable (used by verif when randomizing PIT values)
+    if variable.x0 is not None:
+        output.x0 = variable.x0
+    if variable.x1 is not None:
+        output.x1 = variable.x1
 
     vobs[:] = obs
     vTime[:] = otimes
